@@ -21,6 +21,12 @@ CLAIMS = {
         'document, iss == document id, inclusive exp/issuance bounds against the right options, consistency conversion, returned values are the signed ones.',
    note='Trusted as C01. Outside: JSON, crypto, check_consistency body (C07), resolve_method (C04).',
    technique=TECH_M, ref='DESIGN.md section 2 C03'),
+ 'C04': dict(
+   text='M: one inductive step of every checked mutator and resolver of CoreDocument from an arbitrary document (sets opaque): which of the seven sets is touched '
+        'for which scope/relationship under which guard, refused operations perform no mutation, scoped/unscoped resolution order, query matching; '
+        'constructor gate check_id_constraints with its loops unrolled twice.',
+   note='Trusted as C01. Outside: JSON round trip, OrderedSet operations (C19), whole-document invariant beyond 2 entries per loop.',
+   technique=TECH_M, ref='DESIGN.md section 2 C04'),
  'C06': dict(
    text='M: the legacy-format detector literal (read from the MIR) decided by z3 against the Base64Url text of every zlib default-compression stream (symbolic first deflate '
         'byte) and of its legacy double encoding; binding audit of the encode/decode pipeline, endpoint prefix handling, the document read-modify-write, the per-index '
